@@ -8,7 +8,7 @@
 (* JSON encoding of a number in this domain: <<neg, l1, l2, ...>> with      *)
 (* neg in {0,1} and little-endian limbs base 2^15.                          *)
 (***************************************************************************)
-EXTENDS BigInt
+EXTENDS BigInt, Bitwise
 
 DomName == "big"
 ZJ(j)        == Z(j[1] = 1, NNorm(Tail(j)))
@@ -20,6 +20,11 @@ ZBitAbs(a, i) == NBit(a.mag, i)
 ZWrap(R, signed, w) == ZOfBits(ZModPow2(R, w), signed, w)
 ZUMod2(R, w) == Z(FALSE, ZModPow2(R, w))
 ZPow(a, e)   == Z(a.neg /\ e % 2 = 1, NPow(a.mag, e))
+\* bit operations on non-negative patterns, limb by limb
+NLimbOp(Op(_, _), a, b) == NNorm([i \in 1..MaxI(Len(a), Len(b)) |-> Op(Limb(a, i), Limb(b, i))])
+ZBitAnd(x, y) == Z(FALSE, NLimbOp(LAMBDA p, q : p & q, x.mag, y.mag))
+ZBitOr(x, y)  == Z(FALSE, NLimbOp(LAMBDA p, q : p | q, x.mag, y.mag))
+ZBitXor(x, y) == Z(FALSE, NLimbOp(LAMBDA p, q : p ^^ q, x.mag, y.mag))
 ZMin(a, b)   == IF ZLe(a, b) THEN a ELSE b
 ZMax(a, b)   == IF ZLe(a, b) THEN b ELSE a
 =============================================================================
